@@ -45,7 +45,7 @@ func goDecodeMessage(p string, data []byte) (seq int32, batch m3thrift.MetricBat
 }
 
 func suiteC16(c *Ctx) {
-	c.Cov.Rule = "random MetricBatch values (0-200 metrics, 0-16 tags, byte strings up to 1KiB incl. non-UTF-8, int64/float64 extremes, all metric kinds, nil vs empty optional lists) encoded by the real generated client through ONE reused protocol object per protocol (sequence ids grow past 127 and 16383), compared byte for byte with the Lean encoder, decoded by the Lean decoder and by the Go reader; per metric the calc-transport count vs the real encoding length vs the model; nontrivial = the batch has >14 metrics or a metric >14 tags or a string >127 bytes or an extreme number or a nil/empty optional list; distinct by message bytes"
+	c.Cov.Rule = "random MetricBatch values (0-200 metrics and the sizes 127, 128, 255, 256, 257, 300, 499, 500, 0-16 tags, byte strings up to 1KiB incl. non-UTF-8, int64/float64 extremes, all metric kinds, nil vs empty optional lists) encoded by the real generated client through ONE reused protocol object per protocol (sequence ids grow past 127 and 16383), compared byte for byte with the Lean encoder, decoded by the Lean decoder and by the Go reader; per metric the calc-transport count vs the real encoding length vs the model; nontrivial = the batch has >14 metrics or a metric >14 tags or a string >127 bytes or an extreme number or a nil/empty optional list; distinct by message bytes"
 	for _, p := range []string{"c", "b"} {
 		trans := thrift.NewTMemoryBuffer()
 		client := m3thrift.NewM3ClientFactory(trans, protoFactory(p))
@@ -66,6 +66,13 @@ func suiteC16(c *Ctx) {
 				client.SeqId = math.MaxInt32 - 3
 			}
 			nm := 0
+			maxLen := 24
+			switch r.Intn(10) {
+			case 0:
+				maxLen = 1024
+			case 1, 2:
+				maxLen = 130
+			}
 			switch r.Intn(10) {
 			case 0:
 				nm = 0
@@ -80,12 +87,10 @@ func suiteC16(c *Ctx) {
 			default:
 				nm = r.Range(1, 8)
 			}
-			maxLen := 24
-			switch r.Intn(10) {
-			case 0:
-				maxLen = 1024
-			case 1, 2:
-				maxLen = 130
+			if i%40 == 20 {
+				// list sizes around the one-byte / power-of-two boundaries of the stated range 0..500
+				nm = []int{127, 128, 255, 256, 257, 300, 499, 500}[(i/40)%8]
+				maxLen = 12
 			}
 			batch := m3thrift.MetricBatch{CommonTags: genTagList(r, 6, maxLen)}
 			if nm > 0 || r.Bool() {
